@@ -11,7 +11,7 @@ Guards == {"none", "gt", "eq"}
 OpAssigns == {"+=", "-=", "*=", "/=", "^="}
 Targets == {"var", "idx1", "idx2", "range", "all", "field"}
 Subs == {"s", "ss", "all", "alls", "sall", "range", "rangeincl", "rangestep", "vec", "mask", "dot", "dotint", "brace", "swizzle", "chain2", "dotidx"}
-Lits == {"int", "float", "neg", "hex", "oct", "bin", "dec", "sci", "scineg", "scicap", "rat", "cplx", "cplxneg", "imag", "typed", "annot", "str", "stresc", "strempty",
+Lits == {"int", "float", "neg", "hex", "oct", "bin", "dec", "sci", "scineg", "scicap", "rat", "cplx", "cplxneg", "imag", "typed", "annot", "str", "stresc", "strnl", "strraw", "strtab", "strsp", "strempty",
          "atom", "empty", "true", "false", "big", "leaddot"}
 
 Cases ==
@@ -22,7 +22,7 @@ Cases ==
   \cup {[fam |-> "compr", a |-> k, b |-> g, c |-> f, d |-> l] : k \in {"set", "mat"}, g \in {"1", "2"}, f \in {"none", "cmp"}, l \in {"plain", "let"}}
   \cup {[fam |-> "opassign", a |-> o, b |-> t, c |-> "-", d |-> "-"] : o \in OpAssigns \cup {"="}, t \in Targets}
   \cup {[fam |-> "sub", a |-> s, b |-> w, c |-> "-", d |-> "-"] : s \in Subs, w \in {"expr", "def"}}
-  \cup {[fam |-> "lit", a |-> l, b |-> w, c |-> "-", d |-> "-"] : l \in Lits, w \in {"expr", "inmat", "arg"}}
+  \cup {[fam |-> "lit", a |-> l, b |-> w, c |-> "-", d |-> "-"] : l \in Lits, w \in {"expr", "inmat", "arg", "fnbody", "fnbody2", "fnarm", "matcharm", "rec", "tup", "set", "fsmout", "assign", "fence"}}
   \cup {[fam |-> "enum", a |-> n, b |-> p, c |-> "-", d |-> "-"] : n \in {"1", "2", "3"}, p \in {"none", "u64", "tuple", "mixed"}}
   \cup {[fam |-> "misc", a |-> m, b |-> "-", c |-> "-", d |-> "-"] : m \in {"comment", "trailing", "twostmts", "semis", "blank", "kinddef", "tupledestr", "mutdef", "call0", "callnamed2", "nestedcall", "fncallstmt", "strcat", "neglit", "parenneg", "notvar", "transposecall", "rangevar", "setlit", "emptyset", "map", "record", "nestedrec", "table", "table2rows", "tuple3", "nestedtuple", "matrixrows", "matrixnested", "emptymat", "optional"}}
 
